@@ -396,6 +396,9 @@ def run(ctx: Ctx, rep: Report, tier: str) -> None:
     adoption_rule(ctx, rep, rid="R16.6")
     r16_8(ctx, rep)
     settings_propagation(ctx, rep)
+    from .c01 import field_isolation
+
+    field_isolation(ctx, rep, "R16.10")
     r16_1(ctx, rep)
     r16_2(ctx, rep)
     r16_3(ctx, rep)
